@@ -1449,3 +1449,204 @@ theorem lazy_context_name' (ns : List String) (vals : List C13.Val) (i k : Nat) 
   exact hpos
 
 end Coba.C14
+
+/-! ## Phase 4: `take` inside the text pipelines, `label_col` by header name, whole-file ARFF -/
+
+namespace Coba.C14
+
+theorem sampleOpt_spec' {ρ : Type} (k : Nat) (steps : List C09.Step) (rows s : List ρ)
+    (h : sampleOpt (some (k, steps)) rows = .ok s) :
+    C09.reservoir (some k) false (C05.normInt 1) steps rows = .ok s ∧ s.Subperm rows ∧ s.length = min k rows.length := by
+  unfold sampleOpt sampleRows at h
+  simp only at h
+  split at h
+  · rename_i s' hres
+    injection h with h
+    subst h
+    obtain ⟨hsub, hlen⟩ := C09.reservoir_spec' (some k) false (C05.normInt 1) steps rows s' hres
+    exact ⟨hres, hsub, by simpa [C09.reservoirSize] using hlen⟩
+  · cases h
+
+theorem denseByCol_name' (h : List C12.Text) (nm : C12.Text) (i : Nat) (given : Option LType) (table : List (List Label))
+    (hi : headerIndex h nm = some i) :
+    denseByCol (some h) (.name nm) given table = denseByCol (some h) (.index (i : Int)) given table := by
+  cases table with
+  | nil => simp [denseByCol, simDense, applyTake]
+  | cons r rs => simp [denseByCol, hi]
+
+theorem csvSimT_none' (delim : Nat) (hasHeader : Bool) (lc : LabelCol) (given : Option LType) (lines : List C12.Text) :
+    csvSimT delim hasHeader lc given none lines = csvSim delim hasHeader lc given lines := by
+  unfold csvSimT csvSim
+  split
+  · rfl
+  · rename_i hdr rows _
+    cases lc with
+    | index i => rfl
+    | name nm =>
+      cases rows with
+      | nil => rfl
+      | cons r rs => rfl
+
+theorem csvT_core (hdr : Option (List C12.Text)) (data : List (List C12.Text)) (ind : Int) (given : Option LType)
+    (k : Nat) (steps : List C09.Step) (ints : List (Interaction (List Label)))
+    (h : csvTail hdr (.index ind) given (some (k, steps)) data = .ok ints) :
+    ∃ sample, C09.reservoir (some k) false (C05.normInt 1) steps data = .ok sample ∧
+      sample.Subperm data ∧ sample.length = min k data.length ∧
+      ∃ exs, DenseSplit ind (sample.map (·.map textLabel)) exs ∧ MeetsStatement given exs ints := by
+  unfold csvTail at h
+  split at h
+  · cases h
+  · rename_i s hs
+    obtain ⟨a, b, c⟩ := sampleOpt_spec' k steps data s hs
+    exact ⟨s, a, b, c, dense_meets' given ind _ ints h⟩
+
+theorem end_to_end_csv_take' (delim : Nat) (hd1 : delim ≠ C12.DQ) (hd2 : C12.isNl delim = false) (hasHeader : Bool)
+    (rows : List (List (Bool × C12.Text))) (hok : ∀ r ∈ rows, C12.csvRowOk r = true)
+    (ind : Int) (given : Option LType) (k : Nat) (steps : List C09.Step) (ints : List (Interaction (List Label)))
+    (h : csvSimT delim hasHeader (.index ind) given (some (k, steps)) (rows.map (C12.csvWriteRow delim)) = .ok ints) :
+    ∃ sample, C09.reservoir (some k) false (C05.normInt 1) steps
+        ((rows.map (·.map (·.2))).drop (if hasHeader then 1 else 0)) = .ok sample ∧
+      sample.Subperm ((rows.map (·.map (·.2))).drop (if hasHeader then 1 else 0)) ∧
+      sample.length = min k ((rows.map (·.map (·.2))).drop (if hasHeader then 1 else 0)).length ∧
+      ∃ exs, DenseSplit ind (sample.map (·.map textLabel)) exs ∧ MeetsStatement given exs ints := by
+  unfold csvSimT at h
+  rw [C12.csv_roundtrip delim hd1 hd2 hasHeader rows hok] at h
+  cases hrows : rows.map (·.map (·.2)) with
+  | nil =>
+    rw [hrows] at h
+    simp only at h
+    cases hasHeader <;> exact csvT_core none [] ind given k steps ints h
+  | cons first rest =>
+    rw [hrows] at h
+    cases hasHeader with
+    | true =>
+      simp only [if_true] at h
+      exact csvT_core (some first) rest ind given k steps ints h
+    | false =>
+      simp only [Bool.false_eq_true, if_false] at h
+      exact csvT_core none (first :: rest) ind given k steps ints h
+
+/-- with a header line, naming the label column is the same as giving the index the name stands for -/
+theorem end_to_end_csv_name' (delim : Nat) (hd1 : delim ≠ C12.DQ) (hd2 : C12.isNl delim = false)
+    (hdr : List (Bool × C12.Text)) (rows : List (List (Bool × C12.Text))) (hok : ∀ r ∈ hdr :: rows, C12.csvRowOk r = true)
+    (nm : C12.Text) (i : Nat) (hi : headerIndex (hdr.map (·.2)) nm = some i)
+    (given : Option LType) (res : Option (Nat × List C09.Step)) :
+    csvSimT delim true (.name nm) given res ((hdr :: rows).map (C12.csvWriteRow delim)) =
+      csvSimT delim true (.index (i : Int)) given res ((hdr :: rows).map (C12.csvWriteRow delim)) := by
+  unfold csvSimT
+  rw [C12.csv_roundtrip delim hd1 hd2 true (hdr :: rows) hok]
+  simp only [List.map_cons, if_true, csvTail]
+  split
+  · rfl
+  · exact denseByCol_name' _ nm i given _ hi
+
+theorem end_to_end_libsvm_take' (rows : List C12.SvmRow) (hok : ∀ r ∈ rows, C12.svmRowOk r = true)
+    (given : Option LType) (k : Nat) (steps : List C09.Step) (ints : List (Interaction (List (C12.Text × C12.Text))))
+    (h : libsvmSimT given (some (k, steps)) (rows.map C12.svmWriteRow) = .ok ints) :
+    ∃ sample, C09.reservoir (some k) false (C05.normInt 1) steps rows = .ok sample ∧
+      sample.Subperm rows ∧ sample.length = min k rows.length ∧ MeetsStatement given (sample.map svmPair) ints := by
+  unfold libsvmSimT at h
+  rw [C12.libsvm_roundtrip rows hok] at h
+  simp only at h
+  split at h
+  · cases h
+  · rename_i s hs
+    obtain ⟨a, b, c⟩ := sampleOpt_spec' k steps rows s hs
+    exact ⟨s, a, b, c, read_meets_statement' given _ ints h⟩
+
+theorem end_to_end_manik_take' (first : C12.Text) (rows : List C12.SvmRow) (hok : ∀ r ∈ rows, C12.svmRowOk r = true)
+    (given : Option LType) (k : Nat) (steps : List C09.Step) (ints : List (Interaction (List (C12.Text × C12.Text))))
+    (h : manikSimT given (some (k, steps)) (first :: rows.map C12.svmWriteRow) = .ok ints) :
+    ∃ sample, C09.reservoir (some k) false (C05.normInt 1) steps rows = .ok sample ∧
+      sample.Subperm rows ∧ sample.length = min k rows.length ∧ MeetsStatement given (sample.map svmPair) ints := by
+  unfold manikSimT at h
+  rw [C12.manik_roundtrip first rows hok] at h
+  simp only at h
+  split at h
+  · cases h
+  · rename_i s hs
+    obtain ⟨a, b, c⟩ := sampleOpt_spec' k steps rows s hs
+    exact ⟨s, a, b, c, read_meets_statement' given _ ints h⟩
+
+theorem libsvmSimT_none' (given : Option LType) (lines : List C12.Text) : libsvmSimT given none lines = libsvmSim given lines := by
+  unfold libsvmSimT libsvmSim
+  split <;> rfl
+
+theorem manikSimT_none' (given : Option LType) (lines : List C12.Text) : manikSimT given none lines = manikSim given lines := by
+  unfold manikSimT manikSim
+  split <;> rfl
+
+/-- the round trip of the whole-file reader on a *sparse* file, as a named hypothesis: C12 proves it for one data line
+(`arff_sparse_roundtrip_partial`) and for whole dense files (`arff_dense_table_roundtrip`), not yet for `sparseRows` over a file -/
+def SparseFileRoundTrip (lines : List C12.Text) (names : List C12.Text) (srows : List C12.SparseRow) : Prop :=
+  C12.arffRead lines = .ok (.sparse names srows)
+
+theorem end_to_end_arff_file_sparse_under' (lines : List C12.Text) (names : List C12.Text) (srows : List C12.SparseRow)
+    (hrt : SparseFileRoundTrip lines names srows) (lc : LabelCol) (given : Option LType)
+    (ints : List (Interaction (List (Val × Label))))
+    (h : arffFileSim lc given none lines = .sparse (.ok ints)) :
+    ∃ table, sparseTable (srows.map (·.items)) = .ok table ∧
+      MeetsStatement given (table.map (splitSparse (sparseKey names lc) (Label.atom (.num 0)))) ints := by
+  unfold arffFileSim at h
+  rw [hrt] at h
+  simp only [sampleOpt, ArffOut.sparse.injEq] at h
+  split at h
+  · cases h
+  · rename_i table ht
+    refine ⟨table, ht, read_meets_statement' given _ ints ?_⟩
+    simpa [simSparse, applyTake] using h
+
+theorem end_to_end_arff_file_dense' (q : Nat) (hq : q = C12.SQ ∨ q = C12.DQ) (also : Nat → Bool) (attrs : List C12.AttrW) (dkw : C12.Text)
+    (rows : List (Nat × List (Bool × C12.CellW)))
+    (hattrs : attrs ≠ []) (hok : ∀ a ∈ attrs, a.ok true = true) (hnd : (attrs.map (·.name.2)).Nodup)
+    (hdkw : C12.lowerAscii dkw = C12.kwData) (hne : rows ≠ [])
+    (hrows : ∀ r ∈ rows, C12.denseRowWOk q also r.1 (attrs.map (·.typ.enc true)) r.2 = true)
+    (hfirst : ∀ r, rows.head? = some r → C12.notBraced (C12.denseRowLine q also r.1 r.2) = true)
+    (lines : List C12.Text)
+    (hnorm : C12.arffNormalize lines = attrs.map (·.line q also) ++ dkw :: rows.map (fun r => C12.denseRowLine q also r.1 r.2))
+    (lc : LabelCol) (given : Option LType) (ints : List (Interaction (List Label)))
+    (h : arffFileSim lc given none lines = .dense (.ok ints)) :
+    ∃ table, rowsLabels (rows.map fun r => C12.rowOut (attrs.map (·.typ.enc true)) r.2) = .ok table ∧
+      denseByCol (some (attrs.map (·.name.2))) lc given table = .ok ints := by
+  unfold arffFileSim C12.arffRead at h
+  rw [hnorm, C12.arff_dense_table_roundtrip q hq also attrs dkw rows hattrs hok hnd hdkw hne hrows hfirst] at h
+  simp only [sampleOpt, ArffOut.dense.injEq, List.map_map, Function.comp_def] at h
+  split at h
+  · cases h
+  · rename_i table ht
+    exact ⟨table, ht, h⟩
+
+
+theorem denseByCol_index_meets' (ind : Int) (hdr : Option (List C12.Text)) (given : Option LType) (table : List (List Label))
+    (ints : List (Interaction (List Label))) (h : denseByCol hdr (.index ind) given table = .ok ints) :
+    ∃ exs, DenseSplit ind table exs ∧ MeetsStatement given exs ints ∧ simPairs given none exs = .ok ints := by
+  have h' : simDense given none ind table = .ok ints := h
+  obtain ⟨exs, hs, hx⟩ := dense_eq_xy' given ind table ints h'
+  refine ⟨exs, hs, read_meets_statement' given exs ints ?_, hx⟩
+  simpa [simPairs, applyTake] using hx
+
+/-- `@attribute a numeric` / `@attribute y {x,z}` / `@data` / `{0 2,1 z}` / `{1 x}` -/
+def sparseDemo : List C12.Text :=
+  ["@attribute a numeric", "@attribute y {x,z}", "@data", "{0 2,1 z}", "{1 x}"].map (fun s => s.toList.map Char.toNat)
+
+theorem sparseDemo_isSparse :
+    (match C12.arffRead sparseDemo with | .ok (.sparse _ _) => true | _ => false) = true := by decide +kernel
+
+theorem sparseDemo_roundtrip : ∃ names srows, SparseFileRoundTrip sparseDemo names srows := by
+  have h := sparseDemo_isSparse
+  unfold SparseFileRoundTrip
+  split at h
+  · rename_i n r heq
+    exact ⟨n, r, heq⟩
+  · cases h
+
+/-- the action lists a sparse whole-file simulation offers (`none` when the file is not sparse or the read fails) -/
+def sparseActions (lc : LabelCol) (given : Option LType) (lines : List C12.Text) : Option (List (List Val)) :=
+  match arffFileSim lc given none lines with
+  | .sparse (.ok ints) => some (ints.map (·.actions))
+  | _ => none
+
+theorem sparseDemo_actions :
+    sparseActions (.name [121]) none sparseDemo = some [[.str "x", .str "z"], [.str "x", .str "z"]] := by decide +kernel
+
+end Coba.C14
